@@ -58,32 +58,59 @@ theorem load_chunks_cover {β} (l : List β) (lo : Nat) (h : 1 ≤ lo) :
 
 example : sliceChunks 2 [10, 11, 12, 13, 14] = [[10, 11], [12, 13], [14]] := by decide
 
-/-- the enforced minimum chunk sizes: whatever `max_gb` (also 0 or negative)
-and whatever the dtypes, the three chunk sizes derived from the memory budget
-are at least 100, hence `≥ 1` as the theorems below need. -/
+/-- the enforced minimum chunk sizes: whatever `max_gb` (also 0 or negative),
+whatever the dtypes and whatever the constants `K` of the source, the three
+chunk sizes derived from the memory budget are at least the source's minimum
+sizes — hence `≥ 1` as the theorems below need whenever those are. -/
+theorem budget_floor_consts (K : BudgetConsts) (countGb loadGb elGb : Rat)
+    (dataBytes indptrBytes indicesBytes : Nat) :
+    K.minCount ≤ (Budget.ofConsts K countGb loadGb elGb dataBytes indptrBytes indicesBytes).loCount ∧
+    K.minLoad ≤ (Budget.ofConsts K countGb loadGb elGb dataBytes indptrBytes indicesBytes).lo ∧
+    K.minEl ≤ (Budget.ofConsts K countGb loadGb elGb dataBytes indptrBytes indicesBytes).el := by
+  unfold Budget.ofConsts
+  exact ⟨Nat.le_max_left _ _, Nat.le_max_left _ _, Nat.le_max_left _ _⟩
+
+/-- the same at the constants of the tree the model was first written against
+(minimum 100 three times); quoted by other groups' theorems. -/
 theorem budget_floor (countGb loadGb elGb : Rat) (dataBytes indptrBytes indicesBytes : Nat) :
     100 ≤ (Budget.of countGb loadGb elGb dataBytes indptrBytes indicesBytes).loCount ∧
     100 ≤ (Budget.of countGb loadGb elGb dataBytes indptrBytes indicesBytes).lo ∧
-    100 ≤ (Budget.of countGb loadGb elGb dataBytes indptrBytes indicesBytes).el := by
-  unfold Budget.of
-  exact ⟨Nat.le_max_left _ _, Nat.le_max_left _ _, Nat.le_max_left _ _⟩
+    100 ≤ (Budget.of countGb loadGb elGb dataBytes indptrBytes indicesBytes).el :=
+  budget_floor_consts pinnedConsts countGb loadGb elGb dataBytes indptrBytes indicesBytes
 
-/-- **source constants** (translation tie): the minimum chunk sizes and the
-per-entry overhead re-extracted from the current `utils/csc_to_csr.py`
-(`CTM/Generated/SparseConsts.lean`, rewritten by
-`harness/ctmverif/sparse_translate.py` on every run) are the ones the model's
-`Budget.of` uses, and they are `≥ 1` — which is all the theorems below need
-from the budget.  Checked by kernel evaluation at build time. -/
+/-- **source constants** (translation tie): the minimum block sizes of the
+counting and the fill pass, the budget split and the block size of the joining
+loop are re-extracted from the current `utils/csc_to_csr.py` /
+`csc_to_csr_parallel.py` on every run (`CTM/Generated/SparseConsts.lean`,
+written by `harness/ctmverif/sparse_translate.py`; the driver instantiates the
+model with them).  The theorems of this file hold for *every* value of these
+constants that satisfies the preconditions below — which is all that is
+demanded of the regenerated values (decided by kernel evaluation at build
+time): every minimum size and the join block `≥ 1` (a block size 0 would make
+`range(0, n, 0)` raise), the budget is split by a positive divisor. -/
 theorem source_constants :
-    CTM.Generated.SparseConsts.countMinLoadChunk = minCountChunk ∧
-    CTM.Generated.SparseConsts.transposeMinLoadChunk = minLoadChunk ∧
-    CTM.Generated.SparseConsts.transposeMinElements = minElements ∧
-    CTM.Generated.SparseConsts.dexBytes = dexBytes ∧
-    CTM.Generated.SparseConsts.joinBlock = joinBlockSize ∧
-    1 ≤ CTM.Generated.SparseConsts.joinBlock ∧
     1 ≤ CTM.Generated.SparseConsts.countMinLoadChunk ∧
     1 ≤ CTM.Generated.SparseConsts.transposeMinLoadChunk ∧
-    1 ≤ CTM.Generated.SparseConsts.transposeMinElements := by decide
+    1 ≤ CTM.Generated.SparseConsts.transposeMinElements ∧
+    1 ≤ CTM.Generated.SparseConsts.joinBlock ∧
+    1 ≤ CTM.Generated.SparseConsts.loadSplitDen := by decide
+
+/-- the constants of the current source, as the driver uses them -/
+def sourceConsts : BudgetConsts :=
+  { minCount := CTM.Generated.SparseConsts.countMinLoadChunk
+    minLoad := CTM.Generated.SparseConsts.transposeMinLoadChunk
+    minEl := CTM.Generated.SparseConsts.transposeMinElements
+    dexBytes := CTM.Generated.SparseConsts.dexBytes }
+
+/-- with the constants of the current source every budget has chunk sizes
+`≥ 1`, whatever `max_gb`. -/
+theorem source_budget_ok (countGb loadGb elGb : Rat) (dataBytes indptrBytes indicesBytes : Nat) :
+    1 ≤ (Budget.ofConsts sourceConsts countGb loadGb elGb dataBytes indptrBytes indicesBytes).loCount ∧
+    1 ≤ (Budget.ofConsts sourceConsts countGb loadGb elGb dataBytes indptrBytes indicesBytes).lo ∧
+    1 ≤ (Budget.ofConsts sourceConsts countGb loadGb elGb dataBytes indptrBytes indicesBytes).el := by
+  have h := budget_floor_consts sourceConsts countGb loadGb elGb dataBytes indptrBytes indicesBytes
+  have s := source_constants
+  exact ⟨Nat.le_trans s.1 h.1, Nat.le_trans s.2.1 h.2.1, Nat.le_trans s.2.2.1 h.2.2⟩
 
 /-! ## the transposition at bucket level -/
 
@@ -296,7 +323,7 @@ example : chunks 3 (ceilDiv 3 2) = [(0, 2), (2, 3)] := by decide
 `data`, when there is one) into the final arrays in blocks of `chunk_size`
 entries at a running destination offset (`dst1 = dst0 + (src1-src0)`,
 `dst[dst0:dst1] = src[src0:src1]`, `dst0 = dst1`).  For **every block size
-`≥ 1`** (the literal 1 000 000 is tied by `source_constants`) this blockwise
+`≥ 1`** (the source's literal is only required to be `≥ 1`, `source_constants`) this blockwise
 copy is the whole copy: the parallel transposition with the blockwise join
 equals `transposeV2` — for every matrix, budget and worker count, with a value
 array (`α` arbitrary) and without (`α := Unit`). -/
